@@ -199,6 +199,7 @@ func checkMain(args []string) {
 	assumed := map[string]bool{}
 	kinds := map[string]int{}
 	var vacuous []*OblReport
+	var solverErrors []*OblReport
 	covers, covered := 0, 0
 	for _, rep := range reports {
 		for _, f := range rep.Functions {
@@ -242,6 +243,10 @@ func checkMain(args []string) {
 				if len(samples) < 4 && o.Solver != "trivial" && (o.Kind == "post" || strings.HasPrefix(o.Kind, "inv") || strings.HasPrefix(o.Kind, "pre") || strings.HasPrefix(o.Kind, "at")) {
 					samples = append(samples, map[string]any{"obligation": o.Name, "meaning": o.Desc, "at": o.Pos, "solver": o.Solver, "ms": o.Ms})
 				}
+			} else if o.Result == "solver-error" {
+				// every solver rejected the query: the generator produced a malformed VC. Nothing is known about the
+				// code; reporting it as a violation would be a false alarm, passing it over would be a hole.
+				solverErrors = append(solverErrors, o)
 			} else {
 				bad = append(bad, o)
 			}
@@ -327,6 +332,14 @@ func checkMain(args []string) {
 	cov["unreachable_returns"] = deadReturns
 	for _, o := range vacuous {
 		out = append(out, fmt.Sprintf("CHECK-BROKEN: vacuous assumptions at %s (%s)", o.Name, o.Pos))
+	}
+	for i, o := range solverErrors {
+		if i < 5 {
+			out = append(out, fmt.Sprintf("CHECK-BROKEN: every solver rejected the query of %s (malformed verification condition): %s", o.Name, firstLines(o.Output, 2)))
+		}
+	}
+	if len(solverErrors) > 0 {
+		vacuous = append(vacuous, solverErrors...)
 	}
 	minObl := cfg.MinObls
 	if total < minObl && violations == 0 {
